@@ -333,16 +333,11 @@ Lemma ingest_decode_no_hang : forall p from until name w, ingest_decode p from u
 Proof.
   intros p from until name w. unfold ingest_decode.
   destruct (parse_uint64 from) as [start|]; [|discriminate].
-  destruct (parse_uint64 until) as [en|].
-  - destruct (name_labels name); try discriminate.
-    destruct (ns_fuel ns_fuel_enough start) eqn:E1; [|exfalso; exact (ns_terminates_all _ E1)].
-    destruct (ns_fuel ns_fuel_enough en) eqn:E2; [|exfalso; exact (ns_terminates_all _ E2)].
-    destruct w; discriminate.
-  - destruct p; [|discriminate].
-    destruct (name_labels name); try discriminate.
-    destruct (ns_fuel ns_fuel_enough start) eqn:E1; [|exfalso; exact (ns_terminates_all _ E1)].
-    destruct (ns_fuel ns_fuel_enough 0%N) eqn:E2; [|exfalso; exact (ns_terminates_all _ E2)].
-    destruct w; discriminate.
+  destruct (parse_uint64 until) as [en|]; [|discriminate].
+  destruct (name_labels name); try discriminate.
+  destruct (ns_fuel ns_fuel_enough start) eqn:E1; [|exfalso; exact (ns_terminates_all _ E1)].
+  destruct (ns_fuel ns_fuel_enough en) eqn:E2; [|exfalso; exact (ns_terminates_all _ E2)].
+  destruct w; discriminate.
 Qed.
 
 Lemma ingest_is_response : forall ct from until name w,
@@ -533,12 +528,15 @@ Proof.
   cbn [orb]. destruct (ingest_select ct) as [p|]; [|right; split; reflexivity].
   destruct (parse_uint64 from) as [start|]; [|right; split; reflexivity].
   destruct (ns_fuel ns_fuel_enough start) eqn:E1; [|exfalso; exact (ns_terminates_all _ E1)].
-  destruct (ns_fuel ns_fuel_enough 0%N) eqn:E0; [|exfalso; exact (ns_terminates_all _ E0)].
-  destruct p; destruct (parse_uint64 until) as [en|];
-    try (destruct (ns_fuel ns_fuel_enough en) eqn:E2; [|exfalso; exact (ns_terminates_all _ E2)]);
-    destruct (name_labels name); destruct w;
+  destruct (parse_uint64 until) as [en|]; [|right; split; reflexivity].
+  destruct (ns_fuel ns_fuel_enough en) eqn:E2; [|exfalso; exact (ns_terminates_all _ E2)].
+  destruct (name_labels name); destruct w;
     first [left; split; reflexivity | right; split; reflexivity].
 Qed.
+
+(* before the fix the multipart route kept going with end = 0 when `until` did not parse *)
+Lemma until_error_was_dropped : ingest_until_dropped_orig IPMultipart "abc" = Some 0%N /\ parse_uint64 "abc" = None.
+Proof. split; reflexivity. Qed.
 
 Lemma route_char : forall q, q_body q <> BBytes ->
   (body_malformed q = true -> expect_is_error (route_outcome q) = true) /\
